@@ -82,6 +82,7 @@ type Interp struct {
 	testFailed   bool
 	openFiles    map[*Value][]Value
 	syncMaps     map[*Value]*Map
+	pendingGo    []pendingGoroutine
 	testMsg      string
 	nondetUses   []string
 	// statistics
@@ -427,7 +428,10 @@ func (in *Interp) visitInstr(fr *frame, instr ssa.Instruction) continuation {
 		*defers = &deferred{fn: fn, args: args, instr: instr, tail: *defers}
 
 	case *ssa.Go:
-		in.unsupported("go statement")
+		// goroutines are run to completion, one at a time, when the spawning code waits for them (sync.WaitGroup.Wait);
+		// the order in which they run is the nondeterminism that is explored (see runPendingGo)
+		fn, args := in.prepareCall(fr, &instr.Call)
+		in.pendingGo = append(in.pendingGo, pendingGoroutine{fn: fn, args: args})
 
 	case *ssa.MakeChan:
 		fr.set(instr, &chanVal{t: instr.Type()})
@@ -1474,4 +1478,29 @@ func goGrowCap(oldCap, newLen int, elemSize int64) int {
 	}
 	mem := goRoundUpSize(int64(newcap) * elemSize)
 	return int(mem / elemSize)
+}
+
+
+type pendingGoroutine struct {
+	fn   Value
+	args []Value
+}
+
+// runPendingGo runs the goroutines spawned so far, each to completion. Under map-order mode "all" the order is a
+// nondeterministic choice (every permutation is a path); otherwise they run in spawn order. Interleavings *inside* the
+// goroutine bodies are not explored: this models programs whose goroutines only communicate through a lock-protected
+// result collection, and says so in the evidence (cover label engine-goroutines-run-atomically).
+func (in *Interp) runPendingGo(caller *frame) {
+	for len(in.pendingGo) > 0 {
+		k := 0
+		if in.MapOrder == "all" && len(in.pendingGo) > 1 {
+			if len(in.pendingGo) > 4 {
+				in.unsupported("more than 4 goroutines pending: their orders are not enumerated")
+			}
+			k = in.choice(len(in.pendingGo), "goroutine-order")
+		}
+		g := in.pendingGo[k]
+		in.pendingGo = append(append([]pendingGoroutine{}, in.pendingGo[:k]...), in.pendingGo[k+1:]...)
+		in.call(caller, g.fn, g.args)
+	}
 }
